@@ -725,6 +725,35 @@ fn main() {
             }
         });
     }
+    // a small write that stops before / inside / after a record separator, then a LARGE one
+    // (2^16-1, 2^16, 2^16+1, 2^17 bytes, or all the rest): what is pending when a big block arrives
+    {
+        let mid_entries = 1300;
+        let mid = described_spec("S6", mid_entries);
+        let n = mid.bytes.len();
+        let seps: Vec<usize> = mid.bytes.windows(2).enumerate().filter(|(_, w)| *w == b"\n\n").map(|(i, _)| i).collect();
+        let picked: Vec<usize> = seps.iter().copied().step_by(25).filter(|i| i + 2 + 131_072 < n).collect();
+        run.bound(format!("a small write, then a large one: a stream of {} bytes, first write ending before / inside / after each of {} record separators, second write of 2^16-1, 2^16, 2^16+1, 2^17 bytes or all the rest", n, picked.len()));
+        par_items(&run, "C09 small then large", &picked, |_, i, t| {
+            for first in [*i, *i + 1, *i + 2] {
+                for second in [0usize, 65_535, 65_536, 65_537, 131_072] {
+                    let cuts: Vec<usize> = if second == 0 { vec![first] } else { vec![first, first + second] };
+                    t.evals += 1;
+                    t.validated += 1;
+                    t.states += 1;
+                    t.transitions += cuts.len() as u64 + 1;
+                    t.nontrivial += 1;
+                    match run_partition(&mid, &cuts) {
+                        Some(mut v) => {
+                            v.case = json!({"described": "S6", "n": mid_entries, "cuts": cuts, "note": "the stream is regenerated from its description"});
+                            t.violation(v)
+                        }
+                        None => t.outcome("scale/small-then-large-ok"),
+                    }
+                }
+            }
+        });
+    }
     // small streams: one worker per stream; large ones: workers inside the graph
     let (large, small): (Vec<&Spec>, Vec<&Spec>) = good.iter().chain(bad.iter()).partition(|s| s.bytes.len() > 2500);
     par_items(&run, "C09 streams", &small, |_, s, _| {
@@ -771,35 +800,6 @@ fn main() {
                     t.violation(v)
                 }
                 None => t.outcome("scale/mega-ok"),
-            }
-        });
-    }
-    // a small write that stops before / inside / after a record separator, then a LARGE one
-    // (2^16-1, 2^16, 2^16+1, 2^17 bytes, or all the rest): what is pending when a big block arrives
-    {
-        let mid_entries = 1300;
-        let mid = described_spec("S6", mid_entries);
-        let n = mid.bytes.len();
-        let seps: Vec<usize> = mid.bytes.windows(2).enumerate().filter(|(_, w)| *w == b"\n\n").map(|(i, _)| i).collect();
-        let picked: Vec<usize> = seps.iter().copied().step_by(25).filter(|i| i + 2 + 131_072 < n).collect();
-        run.bound(format!("a small write, then a large one: a stream of {} bytes, first write ending before / inside / after each of {} record separators, second write of 2^16-1, 2^16, 2^16+1, 2^17 bytes or all the rest", n, picked.len()));
-        par_items(&run, "C09 small then large", &picked, |_, i, t| {
-            for first in [*i, *i + 1, *i + 2] {
-                for second in [0usize, 65_535, 65_536, 65_537, 131_072] {
-                    let cuts: Vec<usize> = if second == 0 { vec![first] } else { vec![first, first + second] };
-                    t.evals += 1;
-                    t.validated += 1;
-                    t.states += 1;
-                    t.transitions += cuts.len() as u64 + 1;
-                    t.nontrivial += 1;
-                    match run_partition(&mid, &cuts) {
-                        Some(mut v) => {
-                            v.case = json!({"described": "S6", "n": mid_entries, "cuts": cuts, "note": "the stream is regenerated from its description"});
-                            t.violation(v)
-                        }
-                        None => t.outcome("scale/small-then-large-ok"),
-                    }
-                }
             }
         });
     }
